@@ -244,6 +244,9 @@ def run(ctx):
                 'empty @is_you() { int x = \'a\' %% 0; }', 'empty @is_you() { write(1 / (1 - 1)); }', 'empty @is_you() { write(7 %% (2 - 2) is byte); }',
                 'int g = 1 / 0;\nempty @is_you() { }', 'const int A = 4 %% 0;\nempty @is_you() { write(A); }']:
         inputs.append((src.replace('%%', '%') + '\n', 2, 64, False, False, 'constant expression in a position'))
+    import sweeps
+    for _ in range(40 * N):
+        inputs.append((sweeps.label_hygiene_program(rng), rng.choice([2, 4]), 300, rng.random() < 0.3, False, 'identifiers that look like generated labels'))
     for w, st in [(1, 64), (0, 64), (2, -5), (2, 0), (2, 10 ** 6), (2, 16000), (8, 10 ** 15), (9, 64), (2, 16378), (2, 16379)]:
         inputs.append((bases[0], w, st, False, False, 'option boundary w=%s stack=%s' % (w, st)))
     for d in (5, 20, 40):
